@@ -26,15 +26,16 @@ struct has_shared: std::false_type {};
 template<class M>
 struct has_shared<M, std::void_t<decltype(std::declval<M&>().lock_shared())>>: std::true_type {};
 
-enum Holder { H_NONE, H_X, H_S, H_MODIFY, H_DETACH };
+enum Holder { H_NONE, H_X, H_S, H_MODIFY, H_DETACH, H_S_PENDING };
 enum Behav { B_HOLD, B_DESTROY, B_UNLOCK, B_MOVE_CTOR, B_MOVE_ASSIGN };
-enum Cont { C_TRY, C_TRY_FOR, C_TRY_UNTIL, C_STRY, C_STRY_FOR, C_STRY_UNTIL, C_LOCK, C_LOCK_SHARED, C_CONST_LOCK };
+enum Cont { C_TRY, C_TRY_FOR, C_TRY_UNTIL, C_STRY, C_STRY_FOR, C_STRY_UNTIL, C_LOCK, C_LOCK_SHARED, C_CONST_LOCK, C_TRY_THEN_LOCK, C_STRY_THEN_LOCK };
 const char* holdern[] = {"no holder", "holder: exclusive handle", "holder: shared handle", "holder: inside modify()",
-                         "holder: inside modify_detach()"};
+                         "holder: inside modify_detach()", "holder: shared handle with a modification queued behind it"};
 const char* behavn[] = {"held until the attempt is over", "destroyed concurrently", "unlock()ed concurrently",
                         "move-constructed then destroyed concurrently", "move-assigned then destroyed concurrently"};
 const char* contn[] = {"try_lock", "try_lock_for", "try_lock_until", "try_lock_shared", "try_lock_shared_for",
-                       "try_lock_shared_until", "lock (blocking)", "lock_shared (blocking)", "const lock() (blocking)"};
+                       "try_lock_shared_until", "lock (blocking)", "lock_shared (blocking)", "const lock() (blocking)",
+                       "try_lock, then the same handle is assigned lock()", "try_lock_shared, then the same handle is assigned lock_shared()"};
 
 struct Ctx {
     Event held, done, released;
@@ -174,6 +175,20 @@ struct Gen {
                             return;
                         }
                     }
+                    if constexpr (IsDeferred && has_shared<M>::value) {
+                        if (sp.holder == H_S_PENDING) {
+                            {
+                                auto h = w->lock_shared();
+                                MC_CHECK(bool(h), "null-handle", "lock_shared() returned null");
+                                // queued: the exclusive try-lock fails because this thread holds shared access
+                                w->modify_detach([](Pair& p) { hx::bump_pair(p, "queued modification"); });
+                                cx.held.set();
+                                cx.done.wait();
+                            }
+                            cx.released.set();
+                            return;
+                        }
+                    }
                     if constexpr (IsOrdered) {
                         if (sp.holder == H_MODIFY) {
                             w->modify([&](Pair& p) {
@@ -202,13 +217,14 @@ struct Gen {
             ids.push_back(spawn([w, sp, enabled, mtx, obj, &cx] {
                 if (sp.holder != H_NONE) cx.held.wait();
                 uint64_t ops0 = my_lock_ops(), blk0 = my_block_count();
-                bool shared_form = (sp.cont >= C_STRY && sp.cont <= C_STRY_UNTIL) || sp.cont == C_LOCK_SHARED || sp.cont == C_CONST_LOCK;
+                bool shared_form = (sp.cont >= C_STRY && sp.cont <= C_STRY_UNTIL) || sp.cont == C_LOCK_SHARED || sp.cont == C_CONST_LOCK || sp.cont == C_STRY_THEN_LOCK;
                 bool timed = sp.cont == C_TRY_FOR || sp.cont == C_TRY_UNTIL || sp.cont == C_STRY_FOR || sp.cont == C_STRY_UNTIL;
                 // expectation when the holder keeps its handle for the whole attempt
                 int expect = -1;
                 if (sp.holder == H_NONE) expect = 1;
                 else if (sp.behav == B_HOLD) {
                     bool holder_excl = sp.holder == H_X || sp.holder == H_MODIFY || sp.holder == H_DETACH;
+                    // (H_S_PENDING: a reader with a queued write behind it; another reader's try must still return at once)
                     if (holder_excl || !shared_form) expect = 0;
                     else expect = has_shared<M>::value ? 1 : 0;  // reader vs reader
                 }
@@ -267,6 +283,23 @@ struct Gen {
                         }
                     }
                 }
+                // a handle that came back null from a try is reused: it is move-assigned a blocking acquisition
+                if constexpr (HasExcl) {
+                    if (sp.cont == C_TRY_THEN_LOCK) {
+                        auto c = w->try_lock();
+                        if (!c) c = w->lock();
+                        MC_CHECK(bool(c), "null-handle", "handle null after being assigned lock()");
+                        check_contender(c, enabled, mtx, obj, false, ops0, blk0, true, 1);
+                    }
+                }
+                if constexpr (HasSharedSide) {
+                    if (sp.cont == C_STRY_THEN_LOCK) {
+                        auto c = w->try_lock_shared();
+                        if (!c) c = w->lock_shared();
+                        MC_CHECK(bool(c), "null-handle", "handle null after being assigned lock_shared()");
+                        check_contender(c, enabled, mtx, obj, true, ops0, blk0, true, 1);
+                    }
+                }
                 if (enabled) MC_CHECK(holds(mtx) == 0, "not-released", "contender still holds the lock after its handle died");
                 cx.done.set();
             }));
@@ -302,6 +335,7 @@ struct Gen {
         if (HasSharedSide) holders.push_back(H_S);
         if (IsOrdered) holders.push_back(H_MODIFY);
         if (IsDeferred) holders.push_back(H_DETACH);
+        if (IsDeferred && has_shared<M>::value) holders.push_back(H_S_PENDING);
         std::vector<int> conts;
         if (HasExcl) {
             conts.push_back(C_TRY);
@@ -321,6 +355,8 @@ struct Gen {
         if (HasExcl) blocking.push_back(C_LOCK);
         if (HasSharedSide) blocking.push_back(C_LOCK_SHARED);
         if (HasExcl && HasSharedSide) blocking.push_back(C_CONST_LOCK);
+        if (HasExcl) blocking.push_back(C_TRY_THEN_LOCK);
+        if (HasSharedSide) blocking.push_back(C_STRY_THEN_LOCK);
         for (int en = 1; en >= (IsOpt ? 0 : 1); --en) {
             // blocking acquisitions: against a concurrently releasing holder (enabled), against a holder that
             // keeps its handle (disabled mode only: must not wait), and alone
@@ -328,7 +364,7 @@ struct Gen {
                 for (int b = B_HOLD; b <= B_UNLOCK; b++)
                     for (int c : blocking) {
                         if (h == H_NONE && b != B_HOLD) continue;
-                        if ((h == H_MODIFY || h == H_DETACH)) continue;
+                        if ((h == H_MODIFY || h == H_DETACH || h == H_S_PENDING)) continue;
                         if (en && h != H_NONE && b == B_HOLD) continue;  // would rightly wait for ever
                         if (!en && b != B_HOLD) continue;
                         Spec sp{h, b, c, false};
@@ -342,7 +378,7 @@ struct Gen {
             for (int h : holders)
                 for (int b = B_HOLD; b <= B_MOVE_ASSIGN; b++) {
                     if ((h == H_NONE) && b != B_HOLD) continue;
-                    if ((h == H_MODIFY || h == H_DETACH) && b != B_HOLD) continue;
+                    if ((h == H_MODIFY || h == H_DETACH || h == H_S_PENDING) && b != B_HOLD) continue;
                     for (int c : conts)
                         for (int third = 0; third < 2; third++) {
                             if (third && h == H_NONE) continue;
